@@ -352,3 +352,31 @@ Definition ex_labelled_break : codeblock := mkCB 4 0 319 (build_code ex_labelled
 
 Example ex_labelled_break_rejected : verify2 ex_labelled_break = false.
 Proof. vm_compute. reflexivity. Qed.
+
+(* ================= deepening round 2: binding locators against the environment chain (DeepLocators_C03.v) ================= *)
+From C03 Require Import DeepLocators_C03.
+
+(* No execution indexes outside the environment chain: in a block accepted by verify3 (structure + four depths + locators),
+   whenever an instruction with a binding operand is reached, the environment its locator names (Stack(n), absolute index)
+   exists: n < env_fp + relative depth.  env_fp (`fp`) and the locator scopes (`scopes`) are inputs read from the dump /
+   computed top-down from the parent block's annotation at the creating GetFunction; the depth log validates them. *)
+Theorem no_env_index_oob : forall cb scopes fp, verify3 cb scopes fp = true ->
+  forall pc d i, reach2 cb pc d -> find_instr cb pc = Some i ->
+  forall b n, In b (binds_of i) -> scope_of scopes b = Some n -> n < fp + d_env (d2_base d).
+Proof. exact no_env_index_oob_lemma. Qed.
+Check no_env_index_oob : forall cb scopes fp, verify3 cb scopes fp = true ->
+  forall pc d i, reach2 cb pc d -> find_instr cb pc = Some i ->
+  forall b n, In b (binds_of i) -> scope_of scopes b = Some n -> n < fp + d_env (d2_base d).
+Print Assumptions no_env_index_oob.
+
+(* ... and every binding operand of every instruction (reachable or not) is inside the bindings table. *)
+Theorem binding_operands_in_table : forall cb, verify2 cb = true ->
+  forall pc i b, find_instr cb pc = Some i -> In b (binds_of i) -> b < cb_nbind cb.
+Proof. exact binds_in_table_lemma. Qed.
+Check binding_operands_in_table : forall cb, verify2 cb = true ->
+  forall pc i b, find_instr cb pc = Some i -> In b (binds_of i) -> b < cb_nbind cb.
+Print Assumptions binding_operands_in_table.
+
+(* the for-of example of above with its real locators (none on the stack) verifies; with a locator one environment too deep it does not *)
+Example ex_forof_locators_ok : verify3 ex_forof [None; None] 0 = true.
+Proof. vm_compute. reflexivity. Qed.
